@@ -2,6 +2,7 @@
    Bzip2.SpecR.bzip2_prog is a Gallina port of libbzip2's decoder; the
    correspondence check ties bzip2.Reader to it and libbzip2 (cgo) validates
    both on every run. *)
+From V Require Import Bzip2.Degenerate Bzip2.DegenerateSpec Bzip2.DegenerateThms Bzip2.DegenerateCanon Bzip2.Cut.
 From V Require Import Bzip2.StreamRoundTrip.
 From V Require Import Base.Prelude Base.Prog Bzip2.Common Bzip2.SpecR Bzip2.SpecW Bzip2.Thms Life.ReadLoop Bzip2.Safe.
 
@@ -56,3 +57,45 @@ Theorem bzip2_concatenated_members_decode_to_concatenation : forall inputs,
   mkBZ None (concat (map snd inputs)) (N.of_nat (length (encode_all inputs))).
 Proof. exact bzip2_roundtrip_multi. Qed.
 Print Assumptions bzip2_concatenated_members_decode_to_concatenation.
+
+(* DEGENERATE AND COMPLETE CODE TABLES AGREE WITH libbzip2, for EVERY length vector (2..258
+   lengths in 1..20). The Go reader builds its decoder from GeneratePrefixes when the Kraft sum
+   is one and from handleDegenerateCodes otherwise (model Bzip2/Degenerate.v, run against both
+   on every run: WBZDEGEN); libbzip2 decodes ANY vector with its limit/base/perm tables (the
+   port: mk_table / read_symbol). Whichever branch is taken: no panic, the code list handed
+   to the table decoder is complete and prefix-free, and decoding with it gives, on every
+   source state, exactly the libbzip2 result - the same symbol after the same number of bits,
+   Corrupted at the same bit, UnexpectedEOF on the same inputs *)
+Theorem bzip2_code_tables_decode_like_libbzip2 : forall lens, lens_ok lens ->
+  exists out, build_codes lens = BOk out /\ complete_code out /\
+    forall st, go_outcome (N.of_nat (length lens)) out st = c_outcome lens st.
+Proof. exact build_codes_ok. Qed.
+Print Assumptions bzip2_code_tables_decode_like_libbzip2.
+
+(* TRUNCATION: every proper non-empty prefix of a Writer-produced stream ends in
+   UnexpectedEOF with a prefix of the data, all input consumed *)
+Theorem bzip2_cut_stream_is_unexpected_eof : forall level data k,
+  1 <= level <= 9 -> (forall b, In b data -> b < 256) ->
+  (0 < k < length (bzip2_encode level data))%nat ->
+  bz_err (bzip2_decode (firstn k (bzip2_encode level data))) = Some EUEOF /\
+  prefix_of (bz_out (bzip2_decode (firstn k (bzip2_encode level data)))) data /\
+  bz_used (bzip2_decode (firstn k (bzip2_encode level data))) = N.of_nat k.
+Proof. exact bzip2_cut_is_ueof. Qed.
+Print Assumptions bzip2_cut_stream_is_unexpected_eof.
+
+(* a cut exactly between members is acceptance of the members before it ... *)
+Theorem bzip2_cut_between_members_is_acceptance : forall pre post,
+  pre <> [] -> inputs_ok pre ->
+  bzip2_decode (firstn (length (encode_all pre)) (encode_all (pre ++ post))) =
+  mkBZ None (concat (map snd pre)) (N.of_nat (length (encode_all pre))).
+Proof. exact bzip2_cut_multi_boundary. Qed.
+Print Assumptions bzip2_cut_between_members_is_acceptance.
+
+(* ... and bytes after a stream that do not begin another one are refused, after the data *)
+Theorem bzip2_trailing_garbage_is_refused : forall level data b0 b1 t,
+  1 <= level <= 9 -> (forall b, In b data -> b < 256) ->
+  ~ (b0 mod 256 = 66 /\ b1 mod 256 = 90) ->
+  bzip2_decode (bzip2_encode level data ++ b0 :: b1 :: t) =
+  mkBZ (Some ECorrupted) data (N.of_nat (length (bzip2_encode level data)) + 2).
+Proof. exact bzip2_trailing_garbage. Qed.
+Print Assumptions bzip2_trailing_garbage_is_refused.
